@@ -26,6 +26,13 @@ CLAIMED = {
     "C04": ("Theorems for all programs/selections/outcomes: regenerated trace coherent; weight = density change minus selected-prior change when no Cond flips; "
             "all-selected => 0; none-selected => plain ratio. Frame, discard and definedness are judged per case by the correspondence (regen_spec).",
             GFI_NOTE, "Coq proof by mutual induction over program syntax + differential correspondence (vm_compute)", "7/C04"),
+    "C16": ("Theorems for ALL selection expressions and paths (structural induction over sel, nested dicts included): the match-chain + '() in' probe used by "
+            "regenerate/filter equals the Boolean-algebra denotation sem (or/and/not, str = head, tuple = prefix, dict delegation); filter splits the leaves of "
+            "every choice map into exactly the selected and the unselected ones (C16_filter_partition). merge(a,b)=x is judged per case by the correspondence. "
+            "Correspondence runs natively: all atoms and depth-1 combinations, random depth-3 expressions, all paths of length<=3, filter/merge on nested dict shapes.",
+            "Trusted: Coq kernel; hand model of *Sel.match / Selection / sel / Fn.filter / Distribution.filter / Fn.merge in coq/Model/Gfi.v tied to /repo by "
+            "harness/worker_sel.py + coq/Model/CorrSel.v (runs natively, no overlay). No axioms.",
+            "Coq proof by structural induction over selection syntax and choice maps + exhaustive/differential correspondence (vm_compute)", "7/C16"),
     "C05": ("Theorem C05_history_coherent: after ANY finite history of update/regenerate/mh-shaped/mala-hmc-shaped moves (accepted or rejected) and identity round trips "
             "the trace is coherent w.r.t. its recorded arguments (induction over the history); update weights telescope. 'Observed addresses keep their values' is judged "
             "per case by the correspondence only.",
